@@ -429,3 +429,56 @@ def promoted_variant(const):
             if s[0] == "a" and s[2][0] == "agg" and s[2][1][0] == "adt":
                 return s[2][1][2]
     return None
+
+
+TRANSPARENT_CALLS = (
+    "::min", "::max", "::unwrap_or", "::unwrap", "::expect", "::unwrap_or_default", "::unwrap_or_else", "::try_from", "::try_into",
+    "::from", "::into", "::abs", "::unsigned_abs", "::checked_", "::saturating_", "::wrapping_", "::overflowing_", "::clamp",
+    "::as_", "::to_usize", "::to_i64", "::clone", "::branch", "::from_residual", "::ok", "::pow", "::rem_euclid", "::div_euclid",
+    "std::ops::Add::add", "std::ops::Sub::sub", "std::ops::Mul::mul", "std::ops::Div::div", "std::ops::Rem::rem", "std::ops::Neg::neg",
+)
+
+
+def operand_locals(x, acc):
+    """locals mentioned by an operand / place / rvalue JSON structure"""
+    if isinstance(x, list):
+        if len(x) == 2 and isinstance(x[0], int) and not isinstance(x[0], bool) and isinstance(x[1], list):
+            if all(isinstance(p, str) or (isinstance(p, list) and p and isinstance(p[0], str)) for p in x[1]):
+                acc.add(x[0])
+                for p in x[1]:
+                    if isinstance(p, list) and p[0] == "i":
+                        acc.add(p[1])
+                return acc
+        for y in x:
+            operand_locals(y, acc)
+    return acc
+
+
+def taint(fn, seeds, transparent=TRANSPARENT_CALLS, stop_calls=()):
+    """flow-insensitive, local-granular forward taint. `seeds`: set of locals. Propagates through
+    assignments (use/cast/binop/unop/ref/aggregate/discriminant) and through calls whose name contains
+    one of `transparent` (value-preserving helpers); any other call result is clean (its result is a
+    fresh value, e.g. a byte offset produced by a char-boundary API)."""
+    t = set(seeds)
+    changed = True
+    calls = fn.calls()
+    assigns = list(fn.assigns())
+    while changed:
+        changed = False
+        for b, i, pl, rv, ln in assigns:
+            if pl[0] in t:
+                continue
+            if operand_locals(rv[1:], set()) & t:
+                t.add(pl[0])
+                changed = True
+        for c in calls:
+            if c.dst[0] in t:
+                continue
+            nm = c.name
+            if any(s in nm for s in stop_calls):
+                continue
+            if any(s in nm or s in c.decl for s in transparent):
+                if operand_locals(c.args, set()) & t:
+                    t.add(c.dst[0])
+                    changed = True
+    return t
